@@ -48,10 +48,14 @@ SPECS = {
     'okta2code': dict(file='wmo.py', params={'val': 'Int'}, ret='Option String', raises=True, elementwise=False),
     'height2code': dict(file='wmo.py', params={'val': 'PyFloat'}, ret='String', raises=True, elementwise=False),
     'perc2okta': dict(file='wmo.py', params={'val': 'PyFloat'}, ret='Int', raises=True, elementwise=True),
+    # numeric arguments that are never NaN (hit heights of a set, percentages) are exact rationals (`Rat`);
+    # the third-party call np.percentile becomes a parameter of the generated definition (any function)
+    'calc_base_height': dict(file='utils/utils.py', params={'vals': 'List Rat', 'lookback_perc': 'Rat', 'height_perc': 'Rat'},
+                             ret='Rat', raises=True, elementwise=False,
+                             externals={'np.percentile': ('pctl', 'List Rat → Rat → Rat', ('List Rat', 'Rat'), 'Rat')}),
 }
 
-LEAN_NAME = {'significant_cloud': 'significant_cloud', 'okta2code': 'okta2code', 'height2code': 'height2code',
-             'perc2okta': 'perc2okta'}
+LEAN_NAME = {k: k for k in SPECS}
 
 
 def rat_lit(fr: Fraction) -> str:
@@ -80,6 +84,8 @@ class Tr:
             return code
         if ty == 'Int' and want == 'PyFloat':
             return f'(F.ofInt {code})'
+        if ty == 'Int' and want == 'Rat':
+            return f'(({code} : Int) : Rat)'
         if ty == 'Bool' and want == 'Int':
             return f'(if {code} then (1 : Int) else 0)'
         if ty == 'None' and want.startswith('Option '):
@@ -122,6 +128,8 @@ class Tr:
                     return f'(-{c})', 'Int'
                 if t == 'PyFloat':
                     return f'(F.neg {c})', 'PyFloat'
+                if t == 'Rat':
+                    return f'(-{c})', 'Rat'
             raise Unsupported(n, 'unary operator')
         if isinstance(n, ast.BoolOp):
             parts = []
@@ -146,6 +154,15 @@ class Tr:
             return '[' + ', '.join(c for c, _ in cs) + ']', f'List {ts.pop()}'
         if isinstance(n, ast.Call):
             return self.call(n, env, binds)
+        if isinstance(n, ast.Subscript) and isinstance(n.slice, ast.Slice) and not self.elementwise:
+            sl = n.slice
+            if sl.upper is not None or sl.step is not None or sl.lower is None:
+                raise Unsupported(n, 'slice other than x[lo:]')
+            c, t = self.expr(n.value, env, binds)
+            lo, lt = self.expr(sl.lower, env, binds)
+            if not t.startswith('List ') or lt != 'Int':
+                raise Unsupported(n, f'slice of {t} from {lt}')
+            return f'(sliceFrom {c} {lo})', t
         if isinstance(n, ast.Subscript) and self.elementwise:
             # x[mask] on a right-hand side: elementwise reading
             return self.expr(n.value, env, binds)
@@ -175,6 +192,8 @@ class Tr:
                     raise Unsupported(n, f'comparison {type(op).__name__}')
                 if lt == 'Int' and rt == 'Int':
                     out.append(f'(decide ({lc} {sym[0]} {rc}))')
+                elif {lt, rt} <= {'Int', 'Rat'}:
+                    out.append(f'(decide ({self.coerce(lc, lt, "Rat", n)} {sym[0]} {self.coerce(rc, rt, "Rat", n)}))')
                 elif {lt, rt} <= {'Int', 'PyFloat'}:
                     out.append(f'(F.{sym[1]} {self.coerce(lc, lt, "PyFloat", n)} {self.coerce(rc, rt, "PyFloat", n)})')
                 elif lt == rt == 'String' and sym[1] in ('eq', 'ne'):
@@ -196,6 +215,16 @@ class Tr:
         if lt == rt == 'Int' and op in (ast.Add, ast.Sub, ast.Mult):
             s = {ast.Add: '+', ast.Sub: '-', ast.Mult: '*'}[op]
             return f'({lc} {s} {rc})', 'Int'
+        if {lt, rt} <= {'Int', 'Rat'} and ('Rat' in (lt, rt) or op is ast.Div) and 'PyFloat' not in (lt, rt) \
+                and self.spec.get('rat_arith', 'Rat' in self.spec['params'].values() or 'List Rat' in self.spec['params'].values()):
+            if op is ast.Div:
+                val = const_value(n.right)
+                if val is None or val == 0:
+                    raise Unsupported(n, 'division by something that is not a non-zero literal constant')
+            sym_ = {ast.Add: '+', ast.Sub: '-', ast.Mult: '*', ast.Div: '/'}.get(op)
+            if sym_ is None:
+                raise Unsupported(n, f'operator {op.__name__}')
+            return f'({self.coerce(lc, lt, "Rat", n)} {sym_} {self.coerce(rc, rt, "Rat", n)})', 'Rat'
         if {lt, rt} <= {'Int', 'PyFloat'}:
             if op is ast.Div:
                 val = const_value(n.right)
@@ -213,6 +242,13 @@ class Tr:
         f = n.func
         name = dotted(f)
         args = n.args
+        ext = self.spec.get('externals', {}).get(name)
+        if ext is not None and not n.keywords and len(args) == len(ext[2]):
+            cs = []
+            for a_, want in zip(args, ext[2]):
+                c, t = self.expr(a_, env, binds)
+                cs.append(self.coerce(c, t, want, n))
+            return f'({ext[0]} ' + ' '.join(cs) + ')', ext[3]
         if name in ('np.isnan', 'numpy.isnan', 'math.isnan') and len(args) == 1:
             c, t = self.expr(args[0], env, binds)
             return f'(F.isnan {self.coerce(c, t, "PyFloat", n)})', 'Bool'
@@ -259,6 +295,8 @@ class Tr:
         c, t = self.expr(arg, env, binds)
         if t == 'Int':
             return c, 'Int'
+        if t == 'Rat':
+            return f'(truncRat {c})', 'Int'
         if t != 'PyFloat':
             raise Unsupported(n, f'int() of {t}')
         v = self.tmp()
@@ -585,7 +623,8 @@ def translate_function(src_root: Path, name: str):
         body = tr.block(list(fn.body), env, 1)
     except Unsupported as e:
         return None, f'{spec["file"]}:{name}: {e}'
-    params = ' '.join(f'({p} : {t})' for p, t in spec['params'].items())
+    params = ' '.join([f'({e[0]} : {e[1]})' for e in spec.get('externals', {}).values()] +
+                      [f'({p} : {t})' for p, t in spec['params'].items()])
     ret = f'Except AmpyErr ({spec["ret"]})' if spec['raises'] else spec['ret']
     text = f'def {LEAN_NAME[name]} {params} : {ret} :=\n  {"".join(pre)}{body}\n'
     return text, None
